@@ -64,6 +64,17 @@ func c17GenJobConfig(r *rand.Rand, name string, quartz, allowH bool) *execution.
 	if r.Intn(6) == 0 {
 		jc.Spec.Concurrency.MaxConcurrency = pointer.Int64([]int64{0, 1, 3, -1}[r.Intn(4)])
 	}
+	if r.Intn(4) == 0 {
+		// template metadata copy-pasted from an existing Job, furiko-owned keys included
+		jc.Spec.Template.Labels = map[string]string{"app": "x"}
+		jc.Spec.Template.Annotations = map[string]string{"note": "y"}
+		switch r.Intn(3) {
+		case 0:
+			jc.Spec.Template.Labels["execution.furiko.io/job-config-uid"] = "11111111-2222-3333-4444-555555555555"
+		case 1:
+			jc.Spec.Template.Annotations["execution.furiko.io/schedule-time"] = "1600000000"
+		}
+	}
 	t := &jc.Spec.Template.Spec
 	t.TaskTemplate = execution.TaskTemplate{Pod: &execution.PodTemplateSpec{Spec: corev1.PodSpec{Containers: []corev1.Container{{Name: "c", Image: "img", Args: []string{"${option.a}", "${task.index_num}", "${task.index_key}"}}}}}}
 	switch r.Intn(12) {
@@ -358,8 +369,15 @@ func c17Pair(i int, r *rand.Rand, e *c16Env, res *core.Result) {
 		old.Spec.Substitutions = map[string]string{"option.a": "x"}
 	}
 	// life-cycle stage of the old version
-	stage := []string{"queued", "started", "finished"}[r.Intn(3)]
+	stage := []string{"queued", "started", "finished", "started-deleting"}[r.Intn(4)]
 	switch stage {
+	case "started-deleting":
+		// deleted by the user, held by the finalizer: still the same immutable object
+		st := metav1.NewTime(now.Add(-time.Minute))
+		old.Status.StartTime = &st
+		old.Status.Phase = execution.JobRunning
+		dt := metav1.NewTime(now.Add(-5 * time.Second))
+		old.DeletionTimestamp = &dt
 	case "started":
 		st := metav1.NewTime(now.Add(-time.Minute))
 		old.Status.StartTime = &st
@@ -436,7 +454,7 @@ func c17Pair(i int, r *rand.Rand, e *c16Env, res *core.Result) {
 			nw.Spec.StartPolicy = &execution.StartPolicySpec{ConcurrencyPolicy: execution.ConcurrencyPolicyForbid}
 		}
 		what = "start policy (" + stage + ")"
-		mustReject = stage != "queued"
+		mustReject = stage != "queued" // started, finished, or started and being deleted
 	case 10, 11:
 		switch r.Intn(3) {
 		case 0:
